@@ -84,4 +84,13 @@ def overflowPacket : Bytes := witPacket 2 (List.replicate 70 (witTtxUnit 0xE0 0x
 /-- an ordinary frame: Teletext on line `line` (first field) -/
 def linePacket (ptsLow line fill : Nat) : Bytes := witPacket ptsLow (witTtxUnit (0xE0 + line) fill)
 
+/-- one TS packet (ISO 13818-1 2.4.3.2: sync byte, payload_unit_start_indicator set, PID, payload only,
+continuity counter `cc`) carrying the 184 bytes `pes` -/
+def tsOf (pid cc : Nat) (pes : Bytes) : Bytes := [0x47, 0x40 + pid / 256, pid % 256, 0x10 + cc % 16] ++ pes
+
+/-- three frames (Teletext on line 7, PTS 3, 4, 5), each PES packet one TS packet long, PID 256: the
+stream of `corpus/C06/ts-demux-first-pes.ops` in small (finding F30) -/
+def tsThree : Bytes :=
+  tsOf 256 0 (linePacket 3 7 0x55) ++ tsOf 256 1 (linePacket 4 7 0x66) ++ tsOf 256 2 (linePacket 5 7 0x77)
+
 end Zvbi.Demux
